@@ -23,7 +23,7 @@ static bool open_inst(Case &c, Inst &x, long rate, const std::vector<uint8_t> &f
     API("opn2_switchEmulator", rc = opn2_switchEmulator(x.d, OPNMIDI_EMU_GENS));
     { ExactBuf b(default_bank()); API("opn2_openBankData", rc = opn2_openBankData(x.d, b.p, (long)b.n)); }
     x.cap.attach(x.d);
-    if(loop_on) API("opn2_setLoopEnabled", opn2_setLoopEnabled(x.d, 1));
+    if(loop_on) { API("opn2_setLoopEnabled", opn2_setLoopEnabled(x.d, 1)); API("opn2_setLoopCount", opn2_setLoopCount(x.d, 2)); }   // finite: the comparison runs to the end of the song
     { ExactBuf in(file); API("opn2_openData", rc = opn2_openData(x.d, in.p, (unsigned long)in.n)); }
     if(rc != 0) { c.violation("oracle:C08:wellformed-file-rejected", vfmt("generated SMF rejected: %s", opn2_errorInfo(x.d))); return false; }
     x.acc = 0; x.next_delay = 0; x.at_end = false;
@@ -125,8 +125,11 @@ static void run_case(Case &c)
         if(pre >= 2) { double t3 = pick_target(); API("opn2_positionSeek", opn2_positionSeek(B.d, t3)); hist += vfmt("seek %.6f; ", t3); if(r.chance(0.5)) { B.acc = t3; B.next_delay = 0; B.at_end = false; double t4 = t3 + r.unit() * 0.5; play_to(B, t4, g); hist += vfmt("play-to %.6f; ", t4); } }
         hist += vfmt("seek %.9f (%s)", t, B.acc > t ? "backward" : "forward");
         ctx += "; B: " + hist;
+        size_t bseek0 = B.cap.ev.size();
         API("opn2_positionSeek", opn2_positionSeek(B.d, t));
         double pos = 0; API("opn2_positionTell", pos = opn2_positionTell(B.d));
+        if(getenv("VERIF_TRACE")) { fprintf(stderr, "[trace] len=%.6f ref_len=%.6f t=%.9f pos=%.9f atEnd=%d events during final seek: %zu\n", len, ref_len, t, pos, opn2_atEnd(B.d), B.cap.ev.size() - bseek0);
+            for(size_t i = bseek0; i < B.cap.ev.size(); i++) fprintf(stderr, "[trace]   seek-ev %s @%.6f\n", B.cap.ev[i].str().c_str(), B.cap.ev[i].song_t); }
         if(fabs(pos - t) > 1e-9 + t * 1e-12) c.violation("oracle:C08:position-after-seek", vfmt("opn2_positionTell %.12f after seeking to %.12f; %s", pos, t, ctx.c_str()));
         check_silent(c, B, "target-inside", ctx);
         // A: linear
